@@ -7,6 +7,16 @@ import "net"
 var vIDs = []string{"u1", "u2", "u3"}
 var vAddrs = []net.IP{net.IPv4(10, 0, 0, 1), net.IPv4(10, 0, 0, 2), net.IPv4(10, 0, 0, 3)}
 
+// with bound nat=1 every node's client-facing (rpc / connect) address differs from its node-to-node (peer) address
+var vNatAddrs = []net.IP{net.IPv4(192, 168, 0, 1), net.IPv4(192, 168, 0, 2), net.IPv4(192, 168, 0, 3)}
+
+func vConnectAddr(ad int) net.IP {
+	if vBound("nat") == 1 {
+		return vNatAddrs[ad]
+	}
+	return vAddrs[ad]
+}
+
 // ghost state of the stubbed pool / refresher
 var (
 	vPoolHosts    map[string]bool
@@ -43,7 +53,7 @@ func vReport(n int) []*HostInfo {
 		ad := vChoose("addr", len(vAddrs))
 		vAssume(!usedID[id] && !usedAddr[ad]) // a peer list names each node and each address once
 		usedID[id], usedAddr[ad] = true, true
-		out = append(out, &HostInfo{hostId: vIDs[id], connectAddress: vAddrs[ad], peer: vAddrs[ad], port: 9042, state: NodeUp})
+		out = append(out, &HostInfo{hostId: vIDs[id], connectAddress: vConnectAddr(ad), peer: vAddrs[ad], port: 9042, state: NodeUp})
 	}
 	return out
 }
@@ -83,6 +93,18 @@ func vCheckRing(s *Session, reported []*HostInfo, rejected string, pre string) {
 		byAddr = byAddr && ok && got == h
 	}
 	vAssert(byAddr, pre+"/lookup-by-address-finds-each-known-node")
+	// ... and nothing else: an address no known node has must not resolve (a stale entry hands a nil or
+	// departed host to the status-event handlers)
+	noStale := true
+	for _, all := range [][]net.IP{vAddrs, vNatAddrs} {
+		for _, a := range all {
+			got, ok := r.getHostByIP(a.String())
+			if ok {
+				noStale = noStale && got != nil && r.hosts[got.hostId] == got && got.nodeToNodeAddress().Equal(a)
+			}
+		}
+	}
+	vAssert(noStale, pre+"/lookup-by-address-finds-only-known-nodes")
 	poolOK := len(vPoolHosts) == len(want)
 	for _, h := range want {
 		poolOK = poolOK && vPoolHosts[h.hostId]
@@ -151,8 +173,8 @@ func vh_node_events() {
 	s := vNewSession("")
 	rd := &ringDescriber{session: s}
 	vReported = []*HostInfo{
-		{hostId: "u1", connectAddress: vAddrs[0], peer: vAddrs[0], port: 9042, state: NodeUp},
-		{hostId: "u2", connectAddress: vAddrs[1], peer: vAddrs[1], port: 9042, state: NodeUp},
+		{hostId: "u1", connectAddress: vConnectAddr(0), peer: vAddrs[0], port: 9042, state: NodeUp},
+		{hostId: "u2", connectAddress: vConnectAddr(1), peer: vAddrs[1], port: 9042, state: NodeUp},
 	}
 	vAssume(refreshRing(rd) == nil)
 	n := vBound("events")
